@@ -287,6 +287,7 @@ class Engine:
         B.built = args
         opts = getattr(c, 'options', None) or {}
         it.concrete_number_lengths = bool(opts.get('concrete_number_lengths'))
+        it.plain_real_text = bool(opts.get('plain_real_text'))
         for nm, sp in specs.items():
             if getattr(sp, 'computed', False):
                 continue
